@@ -12,13 +12,14 @@ package client
 // ---------------------------------------------------------------------------
 
 // The client library opens two-party channels only.
+// The client library opens two-party channels only.
 //@ pred chanWF(ch *Channel) = ch != nil && ch.machine.StateMachine != nil && ch.machine.StateMachine.machine != nil &&
-//@   stateDecoded(ch.machine.StateMachine.machine.currentTX.State) && len(ch.machine.StateMachine.machine.currentTX.State.Balances[0]) == 2
+//@   stateDecoded(ch.machine.StateMachine.machine.currentTX.State) && len(ch.machine.StateMachine.machine.currentTX.State.Balances[0]) == 2 && len(ch.machine.StateMachine.machine.currentTX.State.Balances[0]) == 2
 
 //@ func (*chanRegistry).Channel
 //@   trusted
+//@   ensures result0 == regLookup(r, id) && (result1 <==> result0 != nil)
 //@   ensures result1 ==> chanWF(result0)
-//@   ensures !result1 ==> result0 == nil
 
 // ---------------------------------------------------------------------------
 // Proposal validation (C08, C12)
@@ -43,17 +44,45 @@ package client
 //@     modifies _b[a][*]
 //@     invariant 0 <= a && a < len(_b) && len(_b[a]) == numParts && fresh(arr(_b[a])) && off(_b[a]) == 0 && nonNilBals(_b[a])
 
+// The proposal kinds are a closed set.
+//@ sealed ChannelProposal
+
+// regLookup(r, id): the channel registered under id, or nil.
+//@ ghost func regLookup(r *chanRegistry, id channel.ID) *Channel
+//@ pred chanState(ch *Channel) = ch.machine.StateMachine.machine.currentTX.State
+
+// baseValid: the generic validity conditions of the statement (at least two participants, non-zero challenge
+// duration, valid initial allocation without locked funds, an app).
+//@ pred baseValid(b *BaseChannelProposal) = b.InitBals != nil && b.ChallengeDuration != 0 && len(b.InitBals.Balances[0]) >= 2 &&
+//@   len(b.InitBals.Balances[0]) <= channel.MaxNumParts && b.App != nil && validAlloc(*b.InitBals) && len(b.InitBals.Locked) == 0
+
+//@ func (*BaseChannelProposal).Valid
+//@   requires p.InitBals != nil ==> allocDecoded(p.InitBals)
+//@   ensures result == nil ==> baseValid(p)
+
 //@ func (*Client).proposalParent
-//@   requires c != nil && c.channels != nil && prop != nil && payload(prop) != 0 && partIdx <= 1
+//@   requires c != nil && prop != nil
 //@   ensures err == nil && parent != nil ==> chanWF(parent)
+//@   ensures err == nil && istype(prop, "*SubChannelProposalMsg") ==> parent != nil && parent == regLookup(&c.channels, as(prop, "*SubChannelProposalMsg").Parent)
+//@   ensures err == nil && istype(prop, "*VirtualChannelProposalMsg") ==> partIdx < len(as(prop, "*VirtualChannelProposalMsg").Parents) && parent != nil &&
+//@           parent == regLookup(&c.channels, as(prop, "*VirtualChannelProposalMsg").Parents[partIdx])
 
+// Sub-channel: parent known, same assets and backends, parent balances cover the initial balances.
 //@ func (*Client).validSubChannelProposal
-//@   requires c != nil && c.channels != nil && proposal != nil && baseDecoded(&proposal.BaseChannelProposal)
-//@   ensures result == nil ==> true
+//@   requires c != nil && proposal != nil && baseDecoded(&proposal.BaseChannelProposal)
+//@   ensures result == nil ==> regLookup(&c.channels, proposal.Parent) != nil &&
+//@           assetsEq(chanState(regLookup(&c.channels, proposal.Parent)).Assets, proposal.InitBals.Assets) &&
+//@           backendsEq(chanState(regLookup(&c.channels, proposal.Parent)).Backends, proposal.InitBals.Backends) &&
+//@           balancesGE(chanState(regLookup(&c.channels, proposal.Parent)).Balances, proposal.InitBals.Balances)
 
+// Virtual channel: parent list and index maps of the right size, own parent known with the same assets/backends,
+// funding agreement equal to the initial balances, index map entries in range, remapped balances covered by the parent.
 //@ func (*Client).validVirtualChannelProposal
-//@   requires c != nil && c.channels != nil && prop != nil && baseDecoded(&prop.BaseChannelProposal) && ourIdx <= 1 && len(prop.InitBals.Balances[0]) == 2
+//@   requires c != nil && prop != nil && baseDecoded(&prop.BaseChannelProposal) && ourIdx <= 1 && len(prop.InitBals.Balances[0]) == 2
 //@   ensures result == nil ==> len(prop.Parents) == 2 && len(prop.IndexMaps) == 2 && balancesEq(prop.InitBals.Balances, prop.FundingAgreement) &&
-//@           len(prop.IndexMaps[ourIdx]) == 2 && (forall k int :: 0 <= k && k < 2 ==> prop.IndexMaps[ourIdx][k] < 2)
+//@           len(prop.IndexMaps[ourIdx]) == 2 && (forall k int :: 0 <= k && k < 2 ==> prop.IndexMaps[ourIdx][k] < 2) &&
+//@           regLookup(&c.channels, prop.Parents[ourIdx]) != nil &&
+//@           assetsEq(chanState(regLookup(&c.channels, prop.Parents[ourIdx])).Assets, prop.InitBals.Assets) &&
+//@           backendsEq(chanState(regLookup(&c.channels, prop.Parents[ourIdx])).Backends, prop.InitBals.Backends)
 //@   loop 1
 //@     invariant forall k int :: 0 <= k && k < $i ==> indexMap[k] < numPeers
